@@ -4,6 +4,7 @@ import CoxeterVerif.Lemmas.ConstructorsAlloc
 import CoxeterVerif.Lemmas.ConstructorsReorder
 import CoxeterVerif.Lemmas.ConstructorsConvex
 import CoxeterVerif.Lemmas.ConstructorsPlanar
+import CoxeterVerif.Lemmas.ConstructorsCoplanar
 /-!
   # C15 — constructors accept valid geometry and reject invalid geometry
 
@@ -176,9 +177,16 @@ theorem c15_chooseNormal_some_iff (computed : Option (V3 ℝ)) (nv : V3 ℝ) (n 
 
 theorem c15_chooseNormal_none (computed : Option (V3 ℝ)) : chooseNormal computed none = .ok computed := rfl
 
-/-- the coded coplanarity loop, spelled out: every vertex within `1e-8 + planar_tolerance·|d|` of the plane
-`n·x = d` through vertex 0 -/
+/-- **the coded coplanarity test (744f807), spelled out**: every vertex within `planar_tolerance · extent` of the
+plane through vertex 0, `extent` = the largest distance of a vertex from vertex 0 -/
 theorem c15_coplanar_iff (n : V3 ℝ) (verts : List (V3 ℝ)) (ptol : ℝ) :
+    coplanarRel n verts ptol = true ↔
+      ∀ v ∈ verts, |V3.dot (v - verts.getD 0 V3.zero) n| ≤ ptol * planarExtent verts :=
+  coplanarRel_iff n verts ptol
+
+/-- the loop BEFORE 744f807, spelled out: every vertex within `1e-8 + planar_tolerance·|d|` of the plane
+`n·x = d` through vertex 0 — `d` is the distance of the plane from the ORIGIN -/
+theorem c15_coplanar_before_fix_iff (n : V3 ℝ) (verts : List (V3 ℝ)) (ptol : ℝ) :
     coplanar n verts ptol = true ↔
       ∀ v ∈ verts, |V3.dot n v - V3.dot n (verts.getD 0 V3.zero)|
         ≤ 1 / 100000000 + ptol * |V3.dot n (verts.getD 0 V3.zero)| := by
@@ -195,7 +203,7 @@ theorem polygon_new_accepts_iff (p : Poly ℝ) :
     Polygon.new ndim ncols rows normal ptol ts align = .ok p ↔
       ndim = 2 ∧ (ncols = 2 ∨ ncols = 3) ∧ 3 ≤ rows.length ∧ hasDup ncols rows = false ∧
       chooseNormal (cornerNormal (rows.map (pad ncols))) normal = .ok (some p.normal) ∧
-      coplanar p.normal (rows.map (pad ncols)) ptol = true ∧
+      coplanarRel p.normal (rows.map (pad ncols)) ptol = true ∧
       (ts = true → edgesOK ((align p.normal (rows.map (pad ncols))).map xy) = true) ∧
       p = ⟨rows.map (pad ncols), p.normal, .fresh, .fresh⟩ := by
   unfold Polygon.new
@@ -234,7 +242,7 @@ theorem polygon_new_accepts_iff (p : Poly ℝ) :
     · rintro ⟨_, _, _, _, h, _⟩; cases h
    | some n =>
     simp only [isSimple_eq]
-    by_cases h4 : coplanar n (rows.map (pad ncols)) ptol = true
+    by_cases h4 : coplanarRel n (rows.map (pad ncols)) ptol = true
     · by_cases h5 : ts = true ∧ edgesOK ((align n (rows.map (pad ncols))).map xy) = false
       · obtain ⟨h5a, h5b⟩ := h5
         simp only [h4, h5a, h5b, Bool.not_true, Bool.not_false, Bool.and_self, Bool.false_eq_true, if_false,
@@ -331,7 +339,7 @@ theorem polygon_newSweep_ok_iff (ndim ncols : Nat) (rows : List (V3 ℝ)) (norma
       · rintro ⟨h, _⟩; cases h
     | some n =>
       simp only [c15_isSimpleSweep_eq]
-      by_cases h4 : coplanar n (rows.map (pad ncols)) ptol = true
+      by_cases h4 : coplanarRel n (rows.map (pad ncols)) ptol = true
       · simp only [h4, Bool.not_true, Bool.false_eq_true, if_false]
         cases ts
         · simp
@@ -351,7 +359,7 @@ theorem polygon_new_accepts_iff_sweep (ndim ncols : Nat) (rows : List (V3 ℝ)) 
     Polygon.newSweep ndim ncols rows normal ptol ts align asserts = .ok p ↔
       ndim = 2 ∧ (ncols = 2 ∨ ncols = 3) ∧ 3 ≤ rows.length ∧ hasDup ncols rows = false ∧
       chooseNormal (cornerNormal (rows.map (pad ncols))) normal = .ok (some p.normal) ∧
-      coplanar p.normal (rows.map (pad ncols)) ptol = true ∧
+      coplanarRel p.normal (rows.map (pad ncols)) ptol = true ∧
       (ts = true → asserts (normalise ((align p.normal (rows.map (pad ncols))).map xy)) = false ∧
         edgesOK ((align p.normal (rows.map (pad ncols))).map xy) = true) ∧
       p = ⟨rows.map (pad ncols), p.normal, .fresh, .fresh⟩ := by
@@ -459,20 +467,10 @@ theorem polygon_new_transport
   refine ⟨rfl, hc, ?_, ?_, hcorner, ?_, ?_, ?_⟩
   · rw [(hperm rows).length_eq]; exact h3
   · rw [c15_hasDup_perm ncols (hperm rows)]; exact hd
-  · show coplanar p.normal ((T rows).map (pad ncols)) ptol = true
-    rw [c15_coplanar_iff, hTv]
-    have hlen : 0 < (T p.vertices).length := by
-      rw [(hperm p.vertices).length_eq, hv, List.length_map]; omega
-    have h0 : (T p.vertices).getD 0 V3.zero ∈ p.vertices := by
-      apply (hperm p.vertices).mem_iff.1
-      cases hT : T p.vertices with
-      | nil => rw [hT] at hlen; exact absurd hlen (by simp)
-      | cons a t => simp
-    intro v hv'
-    have hvm : v ∈ p.vertices := (hperm p.vertices).mem_iff.1 hv'
-    rw [hplanar v hvm _ h0, sub_self, abs_zero]
-    have : 0 ≤ ptol * |V3.dot p.normal ((T p.vertices).getD 0 V3.zero)| := mul_nonneg hptol (abs_nonneg _)
-    linarith
+  · show coplanarRel p.normal ((T rows).map (pad ncols)) ptol = true
+    rw [hTv]
+    exact coplanarRel_of_planar _ _ hptol
+      (fun v hv' w hw' => hplanar v ((hperm p.vertices).mem_iff.1 hv') w ((hperm p.vertices).mem_iff.1 hw'))
   · intro _
     show edgesOK ((align p.normal ((T rows).map (pad ncols))).map xy) = true
     have := hs rfl
@@ -701,11 +699,8 @@ theorem polygon_accepts_simple_planar_partial (rows : List (V3 ℝ)) (n : V3 ℝ
   · rw [c15_map_pad_three, c15_chooseNormal_none]
     unfold cornerNormal
     rw [c15_unitize_eq_some _ hnd]
-  · rw [c15_map_pad_three, c15_coplanar_iff]
-    intro v hv
-    rw [hconst v hv _ m0, sub_self, abs_zero]
-    have : 0 ≤ ptol * |V3.dot nn (rows.getD 0 V3.zero)| := mul_nonneg hptol (abs_nonneg _)
-    linarith
+  · rw [c15_map_pad_three]
+    exact coplanarRel_of_planar nn rows hptol hconst
   · intro _; rw [c15_map_pad_three]; exact hs _
   · rw [c15_map_pad_three]
 
@@ -1049,7 +1044,10 @@ example : Polygon.new 2 3 exSquare3 none (1/100000) true (fun _ vs => vs)
   refine ⟨rfl, Or.inr rfl, by simp [exSquare3], ?_, ?_, ?_, ?_, ?_⟩
   · simp [exSquare3, hasDup, rowEqb, Scalar.eqb]
   · rw [c15_chooseNormal_none, exSquare3_normal]
-  · rw [c15_coplanar_iff]; simp [exSquare3, pad, V3.dot, V3.zero]
+  · apply coplanarRel_of_planar _ _ (by norm_num)
+    intro v hv w hw
+    simp only [exSquare3, pad, List.map_cons, List.map_nil, List.mem_cons, List.not_mem_nil, or_false] at hv hw
+    rcases hv with rfl | rfl | rfl | rfl <;> rcases hw with rfl | rfl | rfl | rfl <;> simp [V3.dot]
   · intro _; simp only [exSquare3, List.map_cons, List.map_nil, c15_pad_three]; c15_eval
   · simp [exSquare3, pad]
 
@@ -1464,5 +1462,203 @@ example : SimplePolygon (exSquare3.map xy) := by
       v3Eq, leftOf, V3.det3, V3.dot, V3.cross, V3.sub_x, V3.sub_y, V3.sub_z, Scalar.eqb, lit_zero, List.length_cons,
       List.length_nil]
     norm_num
+
+/-! ## 12. the decision does not depend on where the polygon is or how large it is (744f807) -/
+
+/-- **the coplanarity test is invariant under every proper similarity** — rotation, positive scaling, translation of
+the vertex list, the normal rotated along — for EVERY vertex list, normal and tolerance. (The loop it replaced,
+`np.isclose(n·v, d, planar_tolerance)`, was not: `coplanarity_before_fix_translation_fails`.) -/
+theorem coplanarity_test_similarity_invariant {g : Sim} (hg : g.Proper) (n : V3 ℝ) (verts : List (V3 ℝ)) (ptol : ℝ) :
+    coplanarRel (g.dir n) (verts.map g.pt) ptol = coplanarRel n verts ptol :=
+  c15_coplanarRel_sim hg n verts ptol
+
+theorem c15_dir_translation (t n : V3 ℝ) : (Sim.translation t).dir n = n := by
+  unfold Sim.dir Sim.translation; exact Sim.mulVec_id n
+theorem c15_dir_scaling (k : ℝ) (n : V3 ℝ) : (Sim.scaling k).dir n = n := by
+  unfold Sim.dir Sim.scaling; exact Sim.mulVec_id n
+
+/-- translation of the vertex list alone -/
+theorem coplanarity_test_translation_invariant (t n : V3 ℝ) (verts : List (V3 ℝ)) (ptol : ℝ) :
+    coplanarRel n (verts.map (· + t)) ptol = coplanarRel n verts ptol := by
+  have := c15_coplanarRel_sim (Sim.translation_proper t) n verts ptol
+  rw [c15_dir_translation] at this
+  have hm : verts.map (Sim.translation t).pt = verts.map (· + t) := by
+    apply List.map_congr_left; intro v _; exact Sim.translation_pt t v
+  rw [hm] at this; exact this
+
+/-- positive scaling of the vertex list alone -/
+theorem coplanarity_test_scale_invariant {k : ℝ} (hk : 0 < k) (n : V3 ℝ) (verts : List (V3 ℝ)) (ptol : ℝ) :
+    coplanarRel n (verts.map (V3.smul k)) ptol = coplanarRel n verts ptol := by
+  have := c15_coplanarRel_sim (Sim.scaling_proper hk) n verts ptol
+  rw [c15_dir_scaling] at this
+  have hm : verts.map (Sim.scaling k).pt = verts.map (V3.smul k) := by
+    apply List.map_congr_left; intro v _; exact Sim.scaling_pt k v
+  rw [hm] at this; exact this
+
+/-- **regression witness — the loop BEFORE 744f807 was not translation invariant**: the quadrilateral
+`(0,0,0), (1,0,0), (1,1,2·10⁻⁸), (0,1,0)` (off its plane by 2·10⁻⁸ of its size) fails the old test in the plane
+z ≈ 0 and passes it after a shift by (0,0,1) — the tolerance `1e-8 + 1e-5·|d|` grew with the distance `d` of the plane
+from the origin. -/
+theorem coplanarity_before_fix_translation_fails :
+    ¬ (∀ (n t : V3 ℝ) (verts : List (V3 ℝ)) (ptol : ℝ),
+        coplanar n (verts.map (· + t)) ptol = coplanar n verts ptol) := by
+  intro h
+  have e := h ⟨0, 0, 1⟩ ⟨0, 0, 1⟩ [⟨0,0,0⟩, ⟨1,0,0⟩, ⟨1,1,2/100000000⟩, ⟨0,1,0⟩] (1/100000)
+  have h1 : coplanar (⟨0, 0, 1⟩ : V3 ℝ) [⟨0,0,0⟩, ⟨1,0,0⟩, ⟨1,1,2/100000000⟩, ⟨0,1,0⟩] (1/100000) = false := by
+    rw [← Bool.not_eq_true, c15_coplanar_before_fix_iff]
+    intro hc
+    have := hc ⟨1,1,2/100000000⟩ (by simp)
+    simp [V3.dot, V3.zero] at this
+    norm_num at this
+  have h2 : coplanar (⟨0, 0, 1⟩ : V3 ℝ)
+      (([⟨0,0,0⟩, ⟨1,0,0⟩, ⟨1,1,2/100000000⟩, ⟨0,1,0⟩] : List (V3 ℝ)).map (· + (⟨0, 0, 1⟩ : V3 ℝ))) (1/100000) = true := by
+    rw [c15_coplanar_before_fix_iff]
+    intro v hv
+    simp only [List.map_cons, List.map_nil, List.mem_cons, List.not_mem_nil, or_false] at hv
+    rcases hv with rfl | rfl | rfl | rfl <;>
+      simp only [V3.dot, V3.add_x, V3.add_y, V3.add_z, List.getD_cons_zero] <;> norm_num
+  rw [h1, h2] at e
+  exact Bool.noConfusion e
+
+/-- the same quadrilateral with the test of /repo: same verdict before and after the shift (by the theorem) -/
+example : coplanarRel (⟨0, 0, 1⟩ : V3 ℝ)
+    (([⟨0,0,0⟩, ⟨1,0,0⟩, ⟨1,1,2/100000000⟩, ⟨0,1,0⟩] : List (V3 ℝ)).map (· + (⟨0, 0, 1⟩ : V3 ℝ))) (1/100000)
+    = coplanarRel (⟨0, 0, 1⟩ : V3 ℝ) ([⟨0,0,0⟩, ⟨1,0,0⟩, ⟨1,1,2/100000000⟩, ⟨0,1,0⟩] : List (V3 ℝ)) (1/100000) :=
+  coplanarity_test_translation_invariant _ _ _ _
+
+theorem c15_dir_injective {g : Sim} (hg : g.Proper) : Function.Injective g.dir := by
+  intro a b h
+  have hp : (Sim.rotation g.R).pt a = (Sim.rotation g.R).pt b := by
+    rw [Sim.rotation_pt, Sim.rotation_pt]; exact h
+  exact Sim.pt_injective (Sim.rotation_proper hg.rot) hp
+
+/-- **The whole decision of `Polygon.__init__` is invariant under proper similarities** (`(N,3)` input; rotation `R`,
+scale `k > 0`, translation `t`; a supplied normal is rotated along). Every step is: the number of vertices, the
+duplicate test (`p ↦ k R p + t` is injective), the first-corner normal and the orthogonality test
+(`cornerNormal_sim`, `chooseNormal_sim`), the coplanarity test (`coplanarity_test_similarity_invariant` — the step that
+was NOT invariant before 744f807) and simplicity, for which the alignment is external: `hs` says that the aligned
+figure of the moved polygon is simple iff that of the original is (kabsch returns a rotation; `edgesOK` is invariant
+under planar translations and scalings: `edgesOK_similarity`).  Forward: acceptance is transported and the stored data
+are the moved ones; backward: acceptance of the moved polygon implies acceptance of the original. -/
+theorem polygon_new_similarity_invariant {g : Sim} (hg : g.Proper) (rows : List (V3 ℝ)) (normal : Option (V3 ℝ))
+    (ptol : ℝ) (ts : Bool) (align align' : V3 ℝ → List (V3 ℝ) → List (V3 ℝ))
+    (hs : ts = true → ∀ n, edgesOK ((align' (g.dir n) (rows.map g.pt)).map xy) = edgesOK ((align n rows).map xy)) :
+    (∀ p, Polygon.new 2 3 rows normal ptol ts align = .ok p →
+      Polygon.new 2 3 (rows.map g.pt) (normal.map g.dir) ptol ts align'
+        = .ok ⟨rows.map g.pt, g.dir p.normal, .fresh, .fresh⟩) ∧
+    (∀ q, Polygon.new 2 3 (rows.map g.pt) (normal.map g.dir) ptol ts align' = .ok q →
+      ∃ p, Polygon.new 2 3 rows normal ptol ts align = .ok p ∧ q.normal = g.dir p.normal) := by
+  constructor
+  · intro p hacc
+    obtain ⟨_, _, h3, hd, hn, hc, hsimp, hp⟩ := (polygon_new_accepts_iff 2 3 rows normal ptol ts align p).1 hacc
+    rw [c15_map_pad_three] at hn hc hsimp
+    rw [polygon_new_accepts_iff, c15_map_pad_three]
+    refine ⟨rfl, Or.inr rfl, by rw [List.length_map]; exact h3, ?_, ?_, ?_, ?_, rfl⟩
+    · rw [hasDup_three_map (Sim.pt_injective hg)]; exact hd
+    · rw [cornerNormal_sim hg rows h3]
+      cases normal with
+      | none =>
+        rw [c15_chooseNormal_none] at hn
+        injection hn with hn
+        simp only [Option.map_none, c15_chooseNormal_none, hn, Option.map_some]
+      | some nv =>
+        simp only [Option.map_some]
+        rw [chooseNormal_sim hg, hn]
+        rfl
+    · show coplanarRel (g.dir p.normal) (rows.map g.pt) ptol = true
+      rw [c15_coplanarRel_sim hg]; exact hc
+    · intro hts
+      show edgesOK ((align' (g.dir p.normal) (rows.map g.pt)).map xy) = true
+      rw [hs hts]; exact hsimp hts
+  · intro q hacc
+    obtain ⟨_, _, h3, hd, hn, hc, hsimp, hq⟩ := (polygon_new_accepts_iff 2 3 _ _ ptol ts align' q).1 hacc
+    rw [c15_map_pad_three] at hn hc hsimp
+    rw [List.length_map] at h3
+    rw [hasDup_three_map (Sim.pt_injective hg)] at hd
+    rw [cornerNormal_sim hg rows h3] at hn
+    -- the stored normal is the rotated normal of the original
+    have hex : ∃ n, chooseNormal (cornerNormal rows) normal = .ok (some n) ∧ q.normal = g.dir n := by
+      cases normal with
+      | none =>
+        simp only [Option.map_none, c15_chooseNormal_none] at hn
+        injection hn with hn
+        cases hcn : cornerNormal rows with
+        | none => rw [hcn] at hn; cases hn
+        | some n =>
+          rw [hcn] at hn
+          simp only [Option.map_some, Option.some.injEq] at hn
+          exact ⟨n, by rw [c15_chooseNormal_none], hn.symm⟩
+      | some nv =>
+        simp only [Option.map_some] at hn
+        rw [chooseNormal_sim hg] at hn
+        cases hch : chooseNormal (cornerNormal rows) (some nv) with
+        | error e => rw [hch] at hn; cases hn
+        | ok o =>
+          rw [hch] at hn
+          simp only at hn
+          injection hn with hn
+          cases o with
+          | none => cases hn
+          | some n =>
+            simp only [Option.map_some, Option.some.injEq] at hn
+            exact ⟨n, rfl, hn.symm⟩
+    obtain ⟨n, hn0, hqn⟩ := hex
+    refine ⟨⟨rows, n, .fresh, .fresh⟩, ?_, hqn⟩
+    rw [polygon_new_accepts_iff, c15_map_pad_three]
+    refine ⟨rfl, Or.inr rfl, h3, hd, hn0, ?_, ?_, rfl⟩
+    · show coplanarRel n rows ptol = true
+      rw [← c15_coplanarRel_sim hg, ← hqn]; exact hc
+    · intro hts
+      show edgesOK ((align n rows).map xy) = true
+      rw [← hs hts, ← hqn]; exact hsimp hts
+
+/-- **translation invariance of the decision** (`(N,3)` input, normal unchanged) -/
+theorem polygon_new_translation_invariant (t : V3 ℝ) (rows : List (V3 ℝ)) (normal : Option (V3 ℝ)) (ptol : ℝ) (ts : Bool)
+    (align align' : V3 ℝ → List (V3 ℝ) → List (V3 ℝ))
+    (hs : ts = true → ∀ n, edgesOK ((align' n (rows.map (· + t))).map xy) = edgesOK ((align n rows).map xy))
+    (p : Poly ℝ) (hacc : Polygon.new 2 3 rows normal ptol ts align = .ok p) :
+    Polygon.new 2 3 (rows.map (· + t)) normal ptol ts align' = .ok ⟨rows.map (· + t), p.normal, .fresh, .fresh⟩ := by
+  have hm : rows.map (Sim.translation t).pt = rows.map (· + t) := by
+    apply List.map_congr_left; intro v _; exact Sim.translation_pt t v
+  have hn : normal.map (Sim.translation t).dir = normal := by
+    cases normal <;> simp [c15_dir_translation]
+  have := (polygon_new_similarity_invariant (Sim.translation_proper t) rows normal ptol ts align align'
+    (by intro hts n; rw [c15_dir_translation, hm]; exact hs hts n)).1 p hacc
+  rw [hm, hn, c15_dir_translation] at this
+  exact this
+
+/-- **scale invariance of the decision** (`(N,3)` input, `k > 0`, normal unchanged): sizes 2⁻³⁰ or 2³⁰ are judged like
+size 1 -/
+theorem polygon_new_scale_invariant {k : ℝ} (hk : 0 < k) (rows : List (V3 ℝ)) (normal : Option (V3 ℝ)) (ptol : ℝ)
+    (ts : Bool) (align align' : V3 ℝ → List (V3 ℝ) → List (V3 ℝ))
+    (hs : ts = true → ∀ n, edgesOK ((align' n (rows.map (V3.smul k))).map xy) = edgesOK ((align n rows).map xy))
+    (p : Poly ℝ) (hacc : Polygon.new 2 3 rows normal ptol ts align = .ok p) :
+    Polygon.new 2 3 (rows.map (V3.smul k)) normal ptol ts align'
+      = .ok ⟨rows.map (V3.smul k), p.normal, .fresh, .fresh⟩ := by
+  have hm : rows.map (Sim.scaling k).pt = rows.map (V3.smul k) := by
+    apply List.map_congr_left; intro v _; exact Sim.scaling_pt k v
+  have hn : normal.map (Sim.scaling k).dir = normal := by
+    cases normal <;> simp [c15_dir_scaling]
+  have := (polygon_new_similarity_invariant (Sim.scaling_proper hk) rows normal ptol ts align align'
+    (by intro hts n; rw [c15_dir_scaling, hm]; exact hs hts n)).1 p hacc
+  rw [hm, hn, c15_dir_scaling] at this
+  exact this
+
+/-- the unit square pushed to size 2³⁰ is accepted exactly like the unit square (identity alignment; the scaled
+square's edges are simple by `edgesOK_similarity`) -/
+example : ∃ q, Polygon.new 2 3 (exSquare3.map (V3.smul (2 ^ 30))) none (1/100000) false (fun _ vs => vs) = .ok q :=
+  ⟨_, polygon_new_scale_invariant (by positivity) exSquare3 none (1/100000) false (fun _ vs => vs) (fun _ vs => vs)
+    (by intro h; cases h)
+    ⟨exSquare3, ⟨0,0,1⟩, .fresh, .fresh⟩ (by
+      rw [polygon_new_accepts_iff]
+      refine ⟨rfl, Or.inr rfl, by simp [exSquare3], ?_, ?_, ?_, ?_, ?_⟩
+      · simp [exSquare3, hasDup, rowEqb, Scalar.eqb]
+      · rw [c15_chooseNormal_none, exSquare3_normal]
+      · apply coplanarRel_of_planar _ _ (by norm_num)
+        intro v hv w hw
+        simp only [exSquare3, pad, List.map_cons, List.map_nil, List.mem_cons, List.not_mem_nil, or_false] at hv hw
+        rcases hv with rfl | rfl | rfl | rfl <;> rcases hw with rfl | rfl | rfl | rfl <;> simp [V3.dot]
+      · intro h; cases h
+      · simp [exSquare3, pad])⟩
 
 end
